@@ -266,7 +266,7 @@ func main() {
 			cur, _ := current.Load().(string)
 			if cur != last {
 				last, since = cur, time.Now()
-			} else if cur != "" && cur != "done" && time.Since(since) > 10*time.Second {
+			} else if cur != "" && cur != "done" && time.Since(since) > 30*time.Second {
 				out.Encode(V{"kind": "hang", "where": cur})
 				out.Encode(V{"kind": "summary", "cases": calls, "panics": panics, "aborted": true})
 				os.Exit(0)
@@ -275,7 +275,7 @@ func main() {
 	}()
 	coll := client.Database("r").Collection("c")
 	probe := func(where string) {
-		pctx, cancel := context.WithTimeout(ctx, 3*time.Second)
+		pctx, cancel := context.WithTimeout(ctx, 15*time.Second)
 		defer cancel()
 		if _, err := client.Database("r").Collection("probe").UpdateOne(pctx, d("_id", int32(1)), d("$inc", d("n", int32(1))), options.Update().SetUpsert(true)); err != nil {
 			out.Encode(V{"kind": "wedge", "where": where, "err": err.Error()})
